@@ -1,5 +1,6 @@
 import PrefVerif.Driver.Util
 import PrefVerif.Model.Euclid
+import PrefVerif.Spec.Domains
 open Lean PrefVerif PrefVerif.Driver PrefVerif.Euclid
 
 namespace PrefVerif.Driver.Euclid2
@@ -22,9 +23,18 @@ def lp : Handler := fun j => do
   let alts ← arg (α := List Nat) j "alts"
   let orders ← arg (α := List (List Nat)) j "orders"
   let alts := alts.mergeSort
-  let st := Euclid.stage alts orders
-  let base := [("sc", toJson st.sc), ("colouringOk", toJson st.coloured.isSome), ("grey", toJson st.grey)]
-  match Euclid.lp alts orders with
+  -- `sc`: the arrangement the implementation's own pre-check returned, if the harness observed one; it is used
+  -- in place of the model's arrangement when the verified checker accepts it (any valid single-crossing
+  -- arrangement is a correct answer of `is_single_crossing`, e.g. the same chain reversed)
+  let observed := argD j "sc" ([] : List (List Nat))
+  let useObserved := !observed.isEmpty && Spec.scWitness alts orders observed
+  let isSc := if useObserved then true else (SingleCrossing.isSC orders alts.length).1
+  let s := if useObserved then observed else Euclid.scOrders alts orders
+  let st := Euclid.stageOn alts isSc s
+  let base := [("sc", toJson st.sc), ("colouringOk", toJson st.coloured.isSome), ("grey", toJson st.grey),
+    ("usedObservedArrangement", toJson useObserved),
+    ("modelArrangementDiffers", toJson (useObserved && observed != Euclid.scOrders alts orders))]
+  match Euclid.lpOn alts orders isSc s with
   | none => return obj (base ++ [("axis", Json.null), ("constraints", toJson ([] : List Json))])
   | some l =>
     return obj (base ++ [
